@@ -50,6 +50,15 @@ theorem C18_graph_eval (t : Tbl) (hw : WF t) (g : Graph) (hg : GraphOK t g) (r :
     EvalRoot g a r b ↔ b = den t r a :=
   graph_eval_of_ok hw hg r hm hr a b
 
+/-- the same with an executable evaluator (follow the first matching edge; fuel `nvars + 1`):
+on a faithful export it returns the value of the function of the root -/
+theorem C18_graph_eval_exec (t : Tbl) (hw : WF t) (g : Graph) (hg : GraphOK t g) (r : Int)
+    (hm : t.Mem r) (hr : HasKey g.1 r.natAbs) (a : Asg) :
+    (evalGraphF g a (t.nvars + 1) r.natAbs).map (fun b => (decide (r < 0)) ^^ b) =
+      some (den t r a) := by
+  rw [evalGraphF_eq hw hg a (t.nvars + 1) r.natAbs (mem_natAbs hm) hr (by omega), den_natAbs hw hm]
+  rfl
+
 /-- in a faithful export two edges with the same source and `value` mark are identical
 (repeated edges of a `MultiDiGraph` are copies) -/
 theorem C18_edges_functional (t : Tbl) (g : Graph) (hg : GraphOK t g)
@@ -114,7 +123,8 @@ example := C18_toNx_eval exTbl exTbl_wfu.toWF [3, -3] (by decide)
 example : toNx exTbl [2] = .ok ([(2, 1), (1, 2)], [(2, 1, false, true), (2, 1, true, false)]) := by rfl
 example := (C18_toDot_eval exTbl exTbl_wfu.toWF).1 [-3] (by simp) (by decide)
 example := (C18_toDot_eval exTbl exTbl_wfu.toWF).2
-/-- a faithful export exists for the example (hypotheses of `C18_graph_eval`, `C18_edges_functional`) -/
+/-- a faithful export exists for the example (hypotheses of `C18_graph_eval`,
+`C18_graph_eval_exec`, `C18_edges_functional`) -/
 example : ∃ g, GraphOK exTbl g ∧ HasKey g.1 (3 : Int).natAbs := by
   obtain ⟨g, _, ok, s⟩ := toNx_ok exTbl_wfu.toWF [3] (by decide)
   exact ⟨g, ok, (s _).mpr ⟨3, by simp, Reach.refl _⟩⟩
